@@ -33,6 +33,10 @@ pub fn run_bin(bin: &str, cwd: &Path, args: &[&str]) -> BinOut {
         .current_dir(cwd)
         .env_clear()
         .env("PATH", "/usr/bin:/bin")
+        // the environment's idea of the working directory is deliberately a different one (a launcher's)
+        .env("PWD", std::env::var("MC_FAKE_PWD").unwrap_or_else(|_| "/".to_string()))
+        .env("OLDPWD", "/tmp")
+        .env("HOME", "/nonexistent")
         .stdin(std::process::Stdio::null())
         .stdout(std::process::Stdio::piped())
         .stderr(std::process::Stdio::piped())
@@ -724,6 +728,12 @@ fn apply(root: &Path, a: &Act) {
         }
         Act::Plant(c, k) => {
             let p = root.join(CWDS[*c]).join("solstat_report.md");
+            if *k == 3 {
+                // a neighbour of the report with a predictable scratch-like name
+                std::fs::write(root.join(CWDS[*c]).join("solstat_report.md.tmp"), b"precious neighbour\n").unwrap();
+                std::fs::write(root.join(CWDS[*c]).join("solstat_report.md.bak"), b"precious backup\n").unwrap();
+                return;
+            }
             let content: Vec<u8> = match k {
                 0 => b"unrelated bytes \xff\xfe not a report\n".to_vec(),
                 1 => vec![b'x'; 1 << 20],
@@ -778,7 +788,7 @@ pub fn c18(tier: Tier) -> i32 {
         acts.push(Act::Edit(e));
     }
     for c in 0..CWDS.len() {
-        for k in 0..3 {
+        for k in 0..4 {
             if c == 3 && k == 1 {
                 continue;
             }
